@@ -195,6 +195,7 @@ def n5_run(carve):
 
     L = pl.DataFrame({"k": [1, 2, 2, 3, None, 7], "x": [10, 20, 21, 30, 40, 70], "h": [1, 2, 3, 4, 5, 6], "kf": [1.0, 2.0, 2.0, 3.0, None, 7.0]})
     R = pl.DataFrame({"k": [2, 2, 3, 4, None, 7], "y": [200, 201, 300, 400, 500, 5], "g": [1, 2, 3, 4, 5, 6]})
+    R2 = pl.DataFrame({"g2": [1, 2, 3, 4, 5, 6], "v": [7, None, 9, None, 11, 12]})
     lrows, rrows = L.rows(), R.rows()
     preds = {
         "eq": (lambda l, r: l.k == r.k, lambda a, b: a[0] is not None and b[0] is not None and a[0] == b[0]),
@@ -234,17 +235,18 @@ def n5_run(carve):
         warnings.simplefilter("ignore")
         for be in ("polars", "sqlite"):
             if be == "polars":
-                l, r = pdt.Table(L, name="l"), pdt.Table(R, name="r")
+                l, r, r2 = pdt.Table(L, name="l"), pdt.Table(R, name="r"), pdt.Table(R2, name="r2")
             else:
                 eng = sqa.create_engine("sqlite://")
                 L.write_database("l", eng)
                 R.write_database("r", eng)
-                l, r = pdt.Table("l", pdt.SqlAlchemy(eng)), pdt.Table("r", pdt.SqlAlchemy(eng))
+                R2.write_database("r2", eng)
+                l, r, r2 = pdt.Table("l", pdt.SqlAlchemy(eng)), pdt.Table("r", pdt.SqlAlchemy(eng)), pdt.Table("r2", pdt.SqlAlchemy(eng))
             for pname, (on, py) in preds.items():
                 for how in ("inner", "left", "full"):
                     if how == "full" and pname not in ("eq", "eq_swapped", "two_eq", "two_eq_second_swapped", "expr_key", "eq_float_int", "eq_int_float_swapped"):
                         continue
-                    for variant in ("plain", "right_hidden", "left_filtered", "right_const", "right_const_alias", "left_const", "right_filtered", "right_computed", "left_computed"):
+                    for variant in ("plain", "right_hidden", "left_filtered", "right_const", "right_const_alias", "left_const", "right_filtered", "right_computed", "left_computed", "right_computed_alias", "right_nested_join_alias", "left_computed_alias"):
                         if "join_helper" in carve and False:
                             continue
                         n += 1
@@ -291,9 +293,28 @@ def n5_run(carve):
                                     want += [a[:3] + b for b in m]
                                     if not m and how == "left":
                                         want.append(a[:3] + (None, None, None))
-                            j = ll >> pdt.join(rr, on(l, r), how)
+                            lh_, rh_ = l, r  # the table objects through which the columns are referenced
+                            if variant == "right_computed_alias":
+                                # the computed column sits below an alias(): the subquery requirement must see through it
+                                rr = r >> pdt.mutate(cc=pdt.when(r.k.is_null()).then(-1).otherwise(r.y.fill_null(0) + 1)) >> pdt.alias("rc")
+                                rh_, extra_cols = rr, [rr.cc]
+                                want = [w + (((-1 if w[3] is None else w[4] + 1),) if (w[4] is not None or w[5] is not None) else (None,)) for w in want]
+                            if variant == "right_nested_join_alias":
+                                # ... and through a join below the alias
+                                r2m = r2 >> pdt.mutate(zz=r2.v.fill_null(0))
+                                rr = r >> pdt.inner_join(r2m, r.g == r2m.g2) >> pdt.alias("rn")
+                                rh_, extra_cols = rr, [rr.zz]
+                                vmap = dict(zip(R2["g2"].to_list(), R2["v"].to_list()))
+                                want = [w + (((vmap[w[5]] if vmap[w[5]] is not None else 0),) if w[5] is not None else (None,)) for w in want]
+                            if variant == "left_computed_alias":
+                                if how != "full":
+                                    continue
+                                ll = l >> pdt.mutate(cc=pdt.coalesce(l.k, 0) + 100) >> pdt.alias("lc")
+                                lh_, extra_cols = ll, [ll.cc]
+                                want = [w + (((w[0] if w[0] is not None else 0) + 100,) if w[2] is not None else (None,)) for w in want]
+                            j = ll >> pdt.join(rr, on(lh_, rh_), how)
                             names = ["lk__", "lx__", "lh__", "rk__", "ry__", "rg__"] + (["cc__"] if extra_cols else [])
-                            out = j >> pdt.mutate(lk__=l.k, lx__=l.x, lh__=l.h, rk__=r.k, ry__=r.y, rg__=r.g, **({"cc__": extra_cols[0]} if extra_cols else {})) >> pdt.select(*[pdt.C[c] for c in names]) >> pdt.export(pdt.Polars())
+                            out = j >> pdt.mutate(lk__=lh_.k, lx__=lh_.x, lh__=lh_.h, rk__=rh_.k, ry__=rh_.y, rg__=rh_.g, **({"cc__": extra_cols[0]} if extra_cols else {})) >> pdt.select(*[pdt.C[c] for c in names]) >> pdt.export(pdt.Polars())
                             got = sorted(out.rows(), key=key)
                             if got != sorted(want, key=key):
                                 miss = [w for w in sorted(want, key=key) if w not in got][:3]
@@ -349,7 +370,7 @@ def obligations(tier):
                                       functions=f, bounded=f"table widths {ls.w} and {rs.w} (names symbolic, collisions explored)", tags=("cross_backend",),
                                       carveouts={"join_helper_names": "no column is named __INDEX__ or <left column>_right"}, replayer=make_replayer(ls, rs, label, fn, "polars" if backend == "polars" else "sqlite")))
     obs.append(Obligation("C06/N5/native_matrix", "N5", "exact row combinations of inner / left / full joins natively", n5_run, functions=fns_p + [fi(H.sql_backend.SqlImpl.compile_ast)],
-                          bounded="15 predicate shapes (incl. pdt.all(...) of three predicates) (incl. Float64 vs Int64 keys, equalities written from either side) x 3 join kinds x 8 operand variants (plain, hidden right key, filtered left / right, constant or computed non-null-propagating column on either side) x 2 backends on one pair of 6-row tables with nulls, duplicates and unmatched rows"))
+                          bounded="15 predicate shapes (incl. pdt.all(...) of three predicates) (incl. Float64 vs Int64 keys, equalities written from either side) x 3 join kinds x 11 operand variants (plain, hidden right key, filtered left / right, constant or computed non-null-preserving column on either side, also below alias() and below a nested join) x 2 backends on one pair of 6-row tables with nulls, duplicates and unmatched rows"))
     obs.append(Obligation("C06/N6/wrappers", "N6", "inner_join / left_join / full_join / cross_join are join(how=...)", n6_run, functions=[fi(verbs_mod.inner_join), fi(verbs_mod.left_join), fi(verbs_mod.full_join), fi(verbs_mod.cross_join), fi(verbs_mod.join)],
                           bounded="3 wrappers x 3 keyword sets x 3 shapes of `on` (+ cross_join); the wrappers are straight-line calls"))
     return obs
